@@ -131,6 +131,8 @@ class C02(Check):
                 viol.append(dict(key='splint-slack', got=co, expected='fails', what='%s: accepted and extrapolated beyond the last knot (x - x_n <= 1e-7 in transformed space)' % cl))
         nk, vk, stk = self.knot_oracle(ctx)
         viol += vk; stats.update(stk)
+        nd, vd, std = self.datafile_oracle(ctx)
+        viol += vd; stats.update(std); nk += nd
         n2, v2, st2 = self.search2(ctx)
         n2 += nk
         viol += v2; stats.update(st2)
@@ -175,6 +177,65 @@ class C02(Check):
                 viol.append(dict(key=l, got=o, expected='value %r (the tabulated ordinate of this knot, inverse-transformed)' % w,
                                  what='the interpolated quantity at a knot is not the tabulated value'))
         return len(lines), viol[:100], dict(knot_oracle=dict(knots=len(lines), rule='every knot with distinct neighbours and the last knot of each of the 9 x 120 tables: library vs the tabulated ordinate, rel 1e-9'))
+
+    # ---- "the cubic-spline interpolant through the SHIPPED knots and second derivatives": the seven spline files of data/ read here,
+    #      independently of the build-time generator and the loaders (the specification above is evaluated on the tables compiled into the
+    #      library, which a generator that prints fewer digits changes together with the library).  For every element and a seeded slice
+    #      of the knot intervals (all of them at thorough tier) the library is compared, at 1/4, 1/2, 3/4 of the interval, with the textbook
+    #      cubic through (x, y, y'') exactly as shipped.  The library is allowed the rounding it has always had: prdata prints the tables
+    #      with 11 significant digits, which costs at most ~5e-11 of the size S of the spline's terms (measured: 4.3e-11); a call fails when
+    #      it deviates by more than 5e-10 x S (in the transformed space of the site).
+    def datafile_oracle(self, ctx):
+        import os
+        from vlib.core import REPO
+        FILES = {'FF_Rayl': ('FF.dat', None), 'SF_Compt': ('SF.dat', None), 'Fi': ('fi.dat', None), 'Fii': ('fii.dat', None),
+                 'CS_Photo': ('CS_Photo.dat', 'loglog'), 'CS_Rayl': ('CS_Rayl.dat', 'loglog'), 'CS_Compt': ('CS_Compt.dat', 'loglog')}
+        step = 1 if ctx.tier == 'thorough' else 6
+        off = ctx.rng.randrange(step)
+        lines = []; want = []
+        for fn, (fname, tr) in FILES.items():
+            try: toks = open(os.path.join(REPO, 'data', fname)).read().split()
+            except OSError: continue
+            i = 0; Z = 0
+            while i < len(toks):
+                try: n = int(toks[i])
+                except ValueError: break
+                i += 1; Z += 1
+                if n <= 0 or i + 3 * n > len(toks): 
+                    if n > 0: break
+                    continue
+                rows = [(float(toks[i + 3 * k]), float(toks[i + 3 * k + 1]), float(toks[i + 3 * k + 2])) for k in range(n)]
+                i += 3 * n
+                for k in range(n - 1):
+                    if (k + Z + off) % step: continue
+                    (x0, y0, d0), (x1, y1, d1) = rows[k], rows[k + 1]
+                    h = x1 - x0
+                    if not h > 0: continue
+                    for fr in (0.25, 0.5, 0.75):
+                        x = x0 + fr * h
+                        if not (x0 < x < x1): continue
+                        a = (x1 - x) / h; b = (x - x0) / h
+                        t = [a * y0, b * y1, (a ** 3 - a) * d0 * h * h / 6.0, (b ** 3 - b) * d1 * h * h / 6.0]
+                        S = sum(abs(v) for v in t)
+                        if S == 0: continue
+                        arg = math.exp(x) / 1000.0 if tr else x
+                        if not arg > 0: continue
+                        lines.append('%s %d %s E' % (fn, Z, hx(arg))); want.append((sum(t), S, tr, x))
+        viol = []; worst = 0.0
+        for l, (w, S, tr, x), o in zip(lines, want, ctx.run_c(lines)):
+            pa = core.parse_answer(o)
+            if not (pa['kind'] == 'ok' and pa['slot'] == 'E'):
+                viol.append(dict(key=l, got=o, expected='a value: the argument lies strictly inside a knot interval of the shipped table', what='shipped data file vs library')); continue
+            g = pa['vals'][0]
+            if tr:
+                if not g > 0: viol.append(dict(key=l, got=o, expected='positive', what='shipped data file vs library')); continue
+                # the argument handed over is exp(x)/1000 rounded; its effect on the spline is below the tolerance for the slopes in these tables
+                g = math.log(g)
+            dev = abs(g - w) / S; worst = max(worst, dev)
+            if dev > 5e-10:
+                viol.append(dict(key=l, got=o, expected='%s %r (cubic through the knots and second derivatives shipped in data/, at x = %r of the transformed space)' % ('ln of the value =' if tr else 'value', w, x),
+                                 what='the library does not reproduce the spline through the SHIPPED knots and second derivatives (deviation %.3g of the size of the spline terms; the 11-digit printing of the tables explains 5e-11)' % dev))
+        return len(lines), viol[:100], dict(datafile_oracle=dict(points=len(lines), worst_deviation=worst, rule='7 spline files of data/ parsed independently; every %s knot interval x 3 interior points; tolerance 5e-10 of the spline terms' % ('' if step == 1 else '%dth (seeded offset)' % step)))
 
     # ---- the two sub-shell sites (Props/C02b.lean): per-shell Compton profiles (shipped tables) and the Kissel partial photo-
     #      ionisation cross sections (Kissel table regenerated from data/kissel: in the shipped configuration it is empty)
